@@ -1814,7 +1814,7 @@ func allocatesDecodeTarget(call *ssa.Call, depth int) bool {
 // ---- GROWCHECK (added after C04 round 2) -------------------------------------------------------------------
 
 func init() {
-	Register(&Rule{ID: "GROWCHECK", Props: []string{"C04"}, Min: 1,
+	Register(&Rule{ID: "GROWCHECK", Props: []string{"C04", "C12"}, Min: 1,
 		Doc: "the node Insert examines to decide whether the tree must grow is the root it has just installed: the receiver of the growth test is element 0 of the very path slice handed to the root-installing call (or a load of the root) and is read after that call.",
 		Run: runGROWCHECK})
 }
@@ -1895,6 +1895,63 @@ func runGROWCHECK(c *Ctx) {
 			continue
 		}
 		n++
+		// the test runs the layer callback on the root's keys after the new root is installed: it is consulted only once
+		// the size allows a growth at all, so an ordinary insert has no fallible step after its commit point
+		sizeOK := false
+		for _, f := range rs.facts() {
+			bin, isBin := f.Cond.(*ssa.BinOp)
+			if !isBin {
+				continue
+			}
+			x, y, op := bin.X, bin.Y, bin.Op
+			if mastFieldLoad(y, "size") && mastFieldLoad(x, "growAfterSize") {
+				x, y = y, x
+				switch op {
+				case token.LSS:
+					op = token.GTR
+				case token.GTR:
+					op = token.LSS
+				case token.LEQ:
+					op = token.GEQ
+				case token.GEQ:
+					op = token.LEQ
+				}
+			}
+			if !mastFieldLoad(x, "size") || !mastFieldLoad(y, "growAfterSize") {
+				continue
+			}
+			if (op == token.GEQ && f.Truth) || (op == token.LSS && !f.Truth) || (op == token.GTR && f.Truth) {
+				sizeOK = true
+			}
+		}
+		// a wrapper around the real test (`m.shouldGrow(node)` whose body compares the size and then asks canGrow):
+		// the clause is decided at the inner site
+		if !sizeOK {
+			if h := ir.Callee(call.Call); h != nil && privateHelper(c, h) {
+				for _, inner := range sites {
+					ic, isCall := inner.ci.(*ssa.Call)
+					if !isCall || ic.Parent() != h || ic == call {
+						continue
+					}
+					res := ic.Call.Signature().Results()
+					if res.Len() == 2 && ir.IsErrorType(res.At(1).Type()) {
+						if bt, ok := res.At(0).Type().Underlying().(*types.Basic); ok && bt.Kind() == types.Bool {
+							for _, a := range ic.Call.Args {
+								if isNodePtr(a.Type()) {
+									sizeOK = true
+								}
+							}
+						}
+					}
+				}
+			}
+		}
+		if sizeOK {
+			c.OK(P.InstrPos(call), "growth test consulted only at the size threshold", "under size ≥ growAfterSize", false)
+		} else {
+			c.Violation(ins, P.InstrPos(call), "growth test runs on every insert",
+				"the growth test (which runs the layer callback on the root's keys) is reached without the size having been compared with growAfterSize first: every Insert then has a fallible callback after the new root was installed, so a failing layer/marshal function leaves the key inserted with the size not updated on any insert, not only at a threshold")
+		}
 		// the installing call that dominates this test
 		var install *inst
 		for i := range installs {
